@@ -185,7 +185,7 @@ def m_int(interp, x=0, base=10):
     if isinstance(x, StrVec):
         return str_to_int(x, base)
     if isinstance(x, SymBytes):
-        raise Unmodelled("int(bytes)")
+        return str_to_int(x.decode("ascii"), base)       # int(b"123") parses ASCII text
     if isinstance(x, SymReal):
         raise Unmodelled("int(real)")
     return int(x, base) if isinstance(x, str) else int(x)
